@@ -105,7 +105,7 @@ def _parse(out, res):
 
 def run(module, cfg, *, spec_dir, workers=None, dump_dot=None, simulate=None, seed=None,
         extra_env=None, timeout=3600, coverage=True, deadlock=None, extra_args=(), depth_first=False,
-        lib_dirs=(), tag=None):
+        lib_dirs=(), tag=None, heap=None):
     """Run TLC on `module`.tla in spec_dir with configuration `cfg` (a path, or cfg text).
 
     simulate: dict(num=.., depth=.., file=<prefix or None>)
@@ -119,14 +119,17 @@ def run(module, cfg, *, spec_dir, workers=None, dump_dot=None, simulate=None, se
     else:
         cfg_path = os.path.abspath(cfg)
     libs = [os.path.join(env.SPECS, "common")] + [os.path.abspath(d) for d in lib_dirs]
-    jopts = ["-XX:+UseParallelGC", "-DTLA-Library=" + os.pathsep.join(libs)]
+    if workers is None:
+        workers = env.NCPU
+    # a modest heap and few GC threads: many TLC JVMs run side by side (trace batches, shards)
+    jopts = ["-XX:+UseParallelGC", "-Xmx%s" % (heap or os.environ.get("VF_TLC_HEAP", "4g")),
+             "-XX:ParallelGCThreads=%d" % max(1, min(4, int(workers))),
+             "-DTLA-Library=" + os.pathsep.join(libs)]
     if depth_first:
         jopts.append("-Dtlc2.tool.queue.IStateQueue=StateDeque")
     cmd = ["java"] + jopts + ["-cp", env.JAVA_CP, "tlc2.TLC",
                               "-metadir", os.path.join(work, "meta"), "-noGenerateSpecTE",
                               "-config", cfg_path]
-    if workers is None:
-        workers = env.NCPU
     cmd += ["-workers", str(workers)]
     if coverage and not simulate:
         cmd += ["-coverage", "1"]
